@@ -394,3 +394,30 @@ Fixpoint run_steps (E : menv) (ss : list step) (c : contact) : contact * list ev
   | s :: rest => let '(c1, e1) := run_step E s c in
                  let '(c2, e2) := run_steps E rest c1 in (c2, e1 ++ e2)
   end.
+
+(* ---- which contact-writing steps one engine call performs, in order (flows/engine/session.go) -------------
+   start (session.start): trigger.Initialize sets the session contact (not a write of an existing contact);
+     ensureQueryBasedGroups; then continueUntilWait: the first visitNode calls trigger.InitializeRun — for a msg
+     trigger SetInput (last seen := triggered_on) + msg_received — followed by ensureQueryBasedGroups again; then
+     the actions of the visited nodes, each contact-changing action through baseAction.applyModifier.
+     A flow without nodes visits nothing: only the first ensureQueryBasedGroups runs.
+   resume (session.tryToResume): resume.Apply — contact refresh (contact_refreshed unless Equal), for a msg
+     resume SetInput (last seen := resumed_on) + msg_received —; ensureQueryBasedGroups; then the actions. *)
+Inductive sprint_kind :=
+| KStartEmpty                                  (* any trigger, flow without nodes *)
+| KStart (input : option N)                    (* Some t: msg trigger received at t *)
+| KResume (refresh : option contact) (input : option N).
+
+Definition opt_step {A : Type} (f : A -> step) (o : option A) : list step :=
+  match o with Some x => [f x] | None => [] end.
+
+Definition sprint_steps (k : sprint_kind) (acts : list (N * modifier)) : list step :=
+  let applies := map (fun fm => SApply (fst fm) (snd fm)) acts in
+  match k with
+  | KStartEmpty => [SEnsure]
+  | KStart input => SEnsure :: opt_step SSetInput input ++ SEnsure :: applies
+  | KResume refresh input => opt_step SRefresh refresh ++ opt_step SSetInput input ++ SEnsure :: applies
+  end.
+
+Definition run_sprint (E : menv) (k : sprint_kind) (acts : list (N * modifier)) (c : contact)
+  : contact * list event := run_steps E (sprint_steps k acts) c.
